@@ -160,6 +160,7 @@ class Interp(ExprMixin, StmtMixin, CallMixin, PrimMixin):
         return [s for s in states if s.feasible()]
 
     def cap(self, states):
+        PARTITION_CAP = getattr(self, "partition_cap", 48)
         if len(states) <= PARTITION_CAP:
             return states
         # join states pairwise until under the cap (states with identical env shape first)
